@@ -442,6 +442,13 @@ def check(ctx):
     ok = bool(find("seen_before, _SEEN = _SEEN, {}", tk)) and any(isinstance(n, ast.Try) and "_SEEN = seen_before" in unparse(n.finalbody) for n in ast.walk(tk))
     ctx.ob("PAIR.seen-scope", tk, "tokenize swaps _SEEN and restores it in finally", ok)
     handler_covers_fields(ctx)
+    # ---------------- round 4b (C12-m8): a class object is tokenized with its __slotnames__ cache primed
+    from ..lib import eqv as _e4, dominates as _d4
+    no4 = ctx.model.module("dask/tokenize.py").func("normalize_object")
+    pk4 = [n for n in ast.walk(no4) if isinstance(n, ast.Call) and _e4(n.func, "_normalize_pickle")]
+    pr4 = [n for n in no4.body if isinstance(n, ast.If) and _e4(n.test, "isinstance(o, type)") and any(isinstance(s_, ast.Expr) and _e4(s_.value, "copyreg._slotnames(o)") for s_ in n.body)]
+    ok = len(pk4) == 1 and len(pr4) == 1 and pr4[0].lineno < pk4[0].lineno and not any(isinstance(s_, ast.Return) for s_ in ast.walk(pr4[0]))
+    ctx.ob("EFFECT.slotnames.primed", pr4[0] if pr4 else no4, "normalize_object calls copyreg._slotnames(o) for class objects before pickling them", ok, "" if ok else "copy/pickle of any instance adds __slotnames__ to the class __dict__: a locally defined class tokenized by value changes its token in the same process")
 
 
 VARIANTS = [
